@@ -593,7 +593,7 @@ def history_configs(rng, full_year=False, after_leap_day=False):
     """period A and period B = A shifted by one year with the same number of days, disjoint dates"""
     if full_year:
         y = rng.choice([2021, 2022])
-        cfg = c12_config(rng, 365, 4, 1, four=False, start=[y, 1, 1])
+        cfg = c12_config(rng, 365, 3, 1, four="three", start=[y, 1, 1])
     elif after_leap_day:
         y = 2024
         cfg = c12_config(rng, 90, 4, 1, four=False, start=[y, 3, 1])
@@ -688,9 +688,9 @@ SEEDS_REDRAWN = ("period-start", "period-end")   # the earlier run's period diff
 
 def run_after_plan(ctx):
     """(cfg, [(cfg_prev, what_differs)]) - everything random drawn in the main thread"""
-    cfg = c12_config(ctx.rng, ctx.pick(45, 70), 4, 1, four=ctx.rng.choice(["three", False]))
+    cfg = c12_config(ctx.rng, ctx.pick(40, 60), 4, 1, four=ctx.rng.choice(["three", False]))
     out, seen = [], set()
-    want = ctx.pick(2, 5)
+    want = ctx.pick(1, 5)
     # one variant whose PERIOD differs (the kind of history a narrowed generator-cache key gets wrong), the others of
     # pairwise different kinds
     for _ in range(200):
@@ -1063,11 +1063,11 @@ def config_plan(ctx):
     if ctx.quick:
         # third configuration: two batches of simulations (n_sims = 6) with keep_all False - the merge of the
         # summary files across batches and the clearing of program outputs run in the parent between tasks
-        return [(80, 5, 1, True, True, [2024, 2, 1], T), (70, 5, 2, False, True, [2024, 10, 23], True),
+        return [(70, 5, 1, True, True, [2024, 2, 1], T), (60, 5, 2, False, True, [2024, 11, 2], True),
                 (25, 4, 6, "three", False, None, T), (2, 4, 1, False, True, [2024, 2, 28], None)]
-    return [(180, 7, 2, True, True, None, T), (160, 6, 1, True, True, [2024, 1, 15], True), (130, 6, 2, False, True, None, T),
-            (150, 6, 3, False, True, [2024, 6, 15], T), (100, 5, 1, True, True, None, True), (80, 5, 6, "three", True, None, T),
-            (80, 4, 7, "three", False, None, T), (100, 5, 5, True, True, None, T), (90, 5, 1, False, True, None, None),
+    return [(150, 6, 2, True, True, None, T), (140, 6, 1, True, True, [2024, 1, 15], True), (110, 5, 2, False, True, None, T),
+            (120, 6, 3, False, True, [2024, 6, 15], T), (100, 5, 1, True, True, None, True), (80, 5, 6, "three", True, None, T),
+            (80, 4, 7, "three", False, None, T), (90, 5, 5, False, True, None, None),
             (1, 4, 2, True, True, [2024, 12, 31], None), (2, 4, 1, False, True, [2024, 12, 30], T), (2, 4, 2, True, True, [2023, 2, 28], None)]
 
 
